@@ -246,7 +246,11 @@ class Direct:
             elif c.tcp:
                 r = guard(lambda: rc.ws_close(False, 1006, "stopped during handshake"))
                 c.tcp = False
-            r2 = guard(lambda: d.callback(None))
+            def fire():
+                for w_ in list(getattr(c.svc, "stop_waiters", [d])):
+                    if not w_.called:
+                        w_.callback(None)
+            r2 = guard(fire)
             return r2 if r2 != "ok" else r
         if not self.open:
             return "skip"
